@@ -46,7 +46,7 @@ func orphans(r *ev.Run) {
 					}
 					rec := map[string]any{"no_upstream": noUp, "underlying_agent_then": shp.name, "first_operation": first, "key": keyKind}
 					r.Eval(1)
-					r.Guard(c, "orphan rule", rec, func() {
+					if _, hung := r.GuardWithin(c, "orphan rule", rec, ev.CaseBudget(), func() {
 						ag := wire.New()
 						defer ag.Close()
 						sock, err := ag.Listen()
@@ -208,7 +208,10 @@ func orphans(r *ev.Run) {
 						}
 						r.Count("orphan-rule cases ("+map[int]string{1: "kept", -1: "dropped", 0: "open"}[shp.keep]+")", 1)
 						r.Nontrivial(fmt.Sprintf("orphans:%v:%s:%s:%d", noUp, shp.name, first, keyKind))
-					})
+					}); hung {
+						r.Unfinished("orphan rule")
+						return
+					}
 				}
 			}
 		}
@@ -229,7 +232,7 @@ func purgeRefused(r *ev.Run) {
 				}
 				rec := map[string]any{"no_upstream": noUp, "window": window, "first_operation": first}
 				r.Eval(1)
-				r.Guard(c, "purge refused", rec, func() {
+				if _, hung := r.GuardWithin(c, "purge refused", rec, ev.CaseBudget(), func() {
 					ag := wire.New()
 					defer ag.Close()
 					sock, err := ag.Listen()
@@ -296,7 +299,10 @@ func purgeRefused(r *ev.Run) {
 					}
 					r.Count("histories with an out-of-window certificate the underlying agent refuses to remove", 1)
 					r.Nontrivial(fmt.Sprintf("purge-refused:%v:%s:%s", noUp, window, first))
-				})
+				}); hung {
+					r.Unfinished("purge refused")
+					return
+				}
 			}
 		}
 	}
@@ -318,7 +324,7 @@ func slowListing(r *ev.Run) {
 			defer wg.Done()
 			rec := map[string]any{"operation": first}
 			r.Eval(1)
-			r.Guard(c, "slow listing", rec, func() {
+			if _, hung := r.GuardWithin(c, "slow listing", rec, ev.CaseBudget(), func() {
 				ag := wire.New()
 				defer ag.Close()
 				sock, err := ag.Listen()
@@ -387,7 +393,10 @@ func slowListing(r *ev.Run) {
 				}
 				r.Count("operations that outlasted a certificate's validity (slow underlying agent) and did not offer it", 1)
 				r.Nontrivial("slow-listing:" + first)
-			})
+			}); hung {
+				r.Unfinished("slow listing")
+				return
+			}
 		}(first, c)
 	}
 	wg.Wait()
